@@ -45,12 +45,16 @@ package keeper
 // ---- validator records as ghost state (assumed link between the KV store and the record) ----
 //@ ghost valHas map[Bytes]bool
 //@ ghost valStake map[Bytes]int
+//@ ghost valJailedG map[Bytes]bool
+//@ ghost valOutNil map[Bytes]bool
+//@ ghost valOut map[Bytes]Bytes
 
 //@ func (Keeper).GetValidator
 //@   trusted record lookup: store read + codec (amino/proto unmarshal is outside /repo)
 //@   modifies bigv
 //@   ensures found == valHas[bytes(addr)]
 //@   ensures found ==> validator.StakedTokens.i != nil && fresh(validator.StakedTokens.i) && bigv[validator.StakedTokens.i] == valStake[bytes(addr)] && bytes(validator.Address) == bytes(addr)
+//@   ensures found ==> validator.Jailed == valJailedG[bytes(addr)] && (validator.OutputAddress == nil) == valOutNil[bytes(addr)] && (validator.OutputAddress != nil ==> bytes(validator.OutputAddress) == valOut[bytes(addr)])
 //@   ensures forall p int {bigv[p]} :: isold(p) ==> bigv[p] == old(bigv[p])
 
 // ---- C27: stake-weighted amounts -------------------------------------------------------------
@@ -146,3 +150,44 @@ package keeper
 //@   ensures [output-pre-ncust] result == nil && !(featAt("NCUST", ctxHeight(ctx)) || tm3()) ==> lastSetVal.OutputAddress == currentValidator.OutputAddress
 //@   ensures [output-kept] result == nil && (featAt("NCUST", ctxHeight(ctx)) || tm3()) && !(featAt("OEDIT", ctxHeight(ctx)) || tm3()) && currentValidator.OutputAddress != nil ==> lastSetVal.OutputAddress == currentValidator.OutputAddress
 //@   ensures [delegators-kept] result == nil && !((featAt("NCUST", ctxHeight(ctx)) || tm3()) && (featAt("RewardDelegators", ctxHeight(ctx)) || tm3())) ==> lastSetVal.RewardDelegators == currentValidator.RewardDelegators
+
+// ---- C25 / C12: unjailing --------------------------------------------------------------------
+//@ pure nMinStake(c Iface) int
+//@ func (Keeper).MinimumStake
+//@   trusted parameter getter: a deterministic function of the context's state
+//@   pure_fn
+//@   ensures res == nMinStake(ctx)
+
+//@ ghost siHas map[Bytes]bool
+//@ ghost siJailedUntil map[Bytes]int
+//@ func (Keeper).GetValidatorSigningInfo
+//@   trusted store lookup + codec: the signing info is a function of the state
+//@   pure_fn
+//@   ensures found == siHas[bytes(addr)]
+//@   ensures found ==> unixNano(info.JailedUntil) == siJailedUntil[bytes(addr)]
+
+//@ func (Keeper).SetWaitingValidator
+//@   trusted KV-store effect only: marks the node as waiting to unstake
+//@   modifies valWaiting
+
+// signer is the operator, or the output address when one is set
+//@ pure unjailSigner(s Bytes, a Bytes, outNil bool, out Bytes) bool = addrEq(s, a) || (!outNil && addrEq(s, out))
+
+//@ func ValidateValidatorMsgSigner
+//@   props C25,C14
+//@   modifies nothing
+//@   ensures result1 == unjailSigner(bytes(signerAddress), bytes(validator.Address), validator.OutputAddress == nil, bytes(validator.OutputAddress))
+//@   ensures result1 == (result0 == nil)
+
+// A node can be unjailed only by an authorised signer, with at least the minimum stake, while
+// jailed, once the jail period has passed IN BLOCK TIME - and whether it can must be a function
+// of the chain state and the block time only ([complete]: nothing else can make it fail).
+//@ func (Keeper).ValidateUnjailMessage
+//@   props C25,C12
+//@   modifies bigv, valWaiting
+//@   ensures [exists] err == nil ==> old(valHas[bytes(msg.ValidatorAddr)])
+//@   ensures [authorised] err == nil ==> unjailSigner(bytes(msg.Signer), bytes(msg.ValidatorAddr), old(valOutNil[bytes(msg.ValidatorAddr)]), old(valOut[bytes(msg.ValidatorAddr)]))
+//@   ensures [min-stake] err == nil ==> old(valStake[bytes(msg.ValidatorAddr)]) >= nMinStake(ctx)
+//@   ensures [jailed] err == nil ==> old(valJailedG[bytes(msg.ValidatorAddr)])
+//@   ensures [jail-elapsed] err == nil ==> old(siHas[bytes(msg.ValidatorAddr)]) && ctxBlockTimeNs(ctx) >= old(siJailedUntil[bytes(msg.ValidatorAddr)])
+//@   ensures [complete] old(valHas[bytes(msg.ValidatorAddr)]) && unjailSigner(bytes(msg.Signer), bytes(msg.ValidatorAddr), old(valOutNil[bytes(msg.ValidatorAddr)]), old(valOut[bytes(msg.ValidatorAddr)])) && old(valStake[bytes(msg.ValidatorAddr)]) >= nMinStake(ctx) && old(valJailedG[bytes(msg.ValidatorAddr)]) && old(siHas[bytes(msg.ValidatorAddr)]) && ctxBlockTimeNs(ctx) >= old(siJailedUntil[bytes(msg.ValidatorAddr)]) ==> err == nil
